@@ -43,6 +43,12 @@ CLAIMED = {
         text="Both repair entry points are run from every valid state of the complete flip closure of each point set (every flip distance), from each seed after removing each vertex with repair disabled and from the incremental build with repair disabled, under all three topology guarantees, both kernels, D=2..5. On Ok: identical vertex set (UUID, coordinate bits, data), independent Level 1-3 reference, no certain exact empty-circumsphere violation, and for exactly general-position sets the cell set must equal the brute-force unique Delaunay triangulation; on Err the fingerprint must be unchanged; Ok is a violation when the public admissibility predicate rejects flips under the guarantee; every call must return within the work ceiling.",
         note="Known genuine defects (repair certifies non-Delaunay results in D=3 via the degenerate-flip skip and in D>=4 via the both-positive suppression) are listed per (op, D, family, start kind, mechanism). One defect found here was repaired (fix: 2cc646d, negative orientation after public repair).",
         design_ref="DESIGN.md section 5 (C08)"),
+    "C09": dict(
+        category="model_checking",
+        technique="explicit-state BFS over mixed operation histories on the real object with a reference model (list of live / former positions) and exhaustive probe insertions in every state",
+        text="Breadth-first search over histories of {insert, remove_vertex, Edit-API k=1 insert / k=1 remove, repair_delaunay_with_flips_advanced, clone swap, serde round-trip swap, mutable-view touch} from the empty triangulation and from constructed seeds (D=2..4, 5 in thorough; both kernels; alphabets containing on-edge and collinear points so that perturbation retries occur). In every reached state: all live vertices are pairwise at least the documented tolerance apart (exact arithmetic) and UUIDs are unique; then, on a clone, an insertion (both entry points) is probed at q, q+-0.5e-10 and q+-2e-10 for every current (stored) and every former vertex position q, and the outcome must be the duplicate-coordinates outcome exactly when the reference model has a live vertex strictly within 1e-10; re-using a live UUID must give the duplicate-UUID error.",
+        note="Probes within 1% of the tolerance boundary are skipped. Batch-construction skipping/counting of duplicates is covered by C01's multiset and near-duplicate families. Two genuine defects found by this check were repaired (fix: 59315ef Edit-API flips bypassed the spatial index; fix: 289869f index kept stale keys after the initial-simplex rebuild).",
+        design_ref="DESIGN.md section 5 (C09)"),
     "C12": dict(
         category="exploration",
         technique="exhaustive enumeration of grid tuples x vertex orders x scale variants against an exact (bigint) sign oracle",
